@@ -287,6 +287,10 @@ pub fn run(ctx: &'static Ctx) -> (&'static str, Value, Vec<&'static str>) {
             }
         }
     }
+    // large payloads: 5 MiB (thorough: 20 MiB) of text, above any plausible internal buffer size
+    for size in if thorough { vec![5usize << 20, 20 << 20] } else { vec![5usize << 20] } {
+        cases.push(Case { recs: vec![Rec { bz: true, size: 100, negative: false, content: 1, level: 9 }, Rec { bz: true, size, negative: true, content: 2, level: 1 }, Rec { bz: true, size: 6, negative: false, content: 0, level: 9 }], header: 1 });
+    }
     // multi-block payload (900 KiB incompressible => more than one bzip2 block at level 1)
     for level in [1u32, 9] {
         cases.push(Case { recs: vec![Rec { bz: true, size: 900 * 1024, negative: level == 1, content: 4, level }, Rec { bz: true, size: 5, negative: false, content: 1, level }], header: 0 });
@@ -385,9 +389,75 @@ pub fn run(ctx: &'static Ctx) -> (&'static str, Value, Vec<&'static str>) {
         }
     }
     s3.count("raw_record_strings", s3.evaluations);
+    // history dimension: sequences of <= 3 record operations on a fresh thread, over an alphabet
+    // that includes large records (bzip2 stream > 64 KiB), failing decompressions that have
+    // already produced output (truncated / corrupted multi-block streams) and the plain error cases
+    {
+        let big_a = payload(4, 300 * 1024);
+        let big_b = payload(4, 200 * 1024 + 77);
+        let small = payload(1, 1000);
+        let rec_big_a = record_bz(&big_a, 1, false);
+        let rec_big_b = record_bz(&big_b, 1, true);
+        let rec_small = record_bz(&small, 9, false);
+        let mut rec_trunc = rec_big_a.clone();
+        rec_trunc.truncate(rec_big_a.len() * 2 / 3);
+        let mut rec_corrupt = rec_big_b.clone();
+        let mid = rec_corrupt.len() * 3 / 4;
+        for b in rec_corrupt[mid..mid + 64].iter_mut() {
+            *b ^= 0x5A;
+        }
+        let rec_raw = record_raw(&payload(2, 500), false);
+        // (record bytes, expected payload if decompression must succeed)
+        let ops: Vec<(Vec<u8>, Option<Vec<u8>>, &str)> = vec![
+            (rec_big_a, Some(big_a), "large_ok_a"),
+            (rec_big_b, Some(big_b), "large_ok_b"),
+            (rec_small, Some(small), "small_ok"),
+            (rec_trunc, None, "large_truncated"),
+            (rec_corrupt, None, "large_corrupted"),
+            (rec_raw, None, "uncompressed"),
+        ];
+        let hs = std::sync::Mutex::new(Stats::new());
+        for_each_history(ops.len(), 3, |w| {
+            let mut st = Stats::new();
+            for (step, i) in w.iter().enumerate() {
+                let (bytes, exp, name) = &ops[*i];
+                let r = Record::new(bytes.clone());
+                st.eval();
+                match (guarded(|| r.decompress().map(|x| x.data().to_vec()).ok()), exp) {
+                    (Caught::Ret(Some(out)), Some(p)) => {
+                        if &out != p {
+                            ctx.fail(
+                                "history:decompress_depends_on_previous_operations",
+                                || format!("sequence {:?}: step {step} ({name}) returned {} bytes for a payload of {} bytes", w.iter().map(|k| ops[*k].2).collect::<Vec<_>>(), out.len(), p.len()),
+                                || json!({"op": "history", "sequence": w}),
+                            );
+                        }
+                    }
+                    (Caught::Ret(None), Some(_)) => ctx.fail("history:decompress_fails_after_previous_operations", || format!("sequence {:?} step {step} ({name})", w.iter().map(|k| ops[*k].2).collect::<Vec<_>>()), || json!({"op": "history", "sequence": w})),
+                    (Caught::Ret(Some(_)), None) if *name == "uncompressed" => ctx.fail("history:uncompressed_record_decompressed", || format!("{:?}", w), || json!({"op": "history", "sequence": w})),
+                    (Caught::Panic(p), _) => ctx.fail("history:decompress_panic", || p.clone(), || json!({"op": "history", "sequence": w})),
+                    _ => {}
+                }
+            }
+            st.count("history_sequences", 1);
+            st.nontrivial(format!("h{:?}", w).as_bytes());
+            let mut g = hs.lock().unwrap_or_else(|e| e.into_inner());
+            let old = std::mem::take(&mut *g);
+            *g = old.merge(st);
+        });
+        s3 = s3.merge(hs.into_inner().unwrap_or_else(|e| e.into_inner()));
+        // short-read environment for the volume header
+        use crate::guard::{short_read_check, SplitReader};
+        for hp in 0..4u8 {
+            let bytes = header_plan(hp).encode();
+            let n = short_read_check(ctx, "volume::Header::deserialize", &bytes, true, |r: &mut SplitReader| Header::deserialize(r).ok().map(|h| (h.tape_filename(), h.extension_number(), h.icao_of_radar(), h.date_time())), |shape| json!({"op": "short_read", "header_plan": hp, "boundaries": shape.0, "max_chunk": shape.1}));
+            s3.evaluations += n;
+            s3.count("short_read_shapes", n);
+        }
+    }
     let stats = s1.merge(s2).merge(s3);
     let cov = stats.coverage(
-        "files built by the reference container writer: 0..=4 records; record options = {raw bytes, bzip2 of payload} x size {0,1,2,5,6,100,2432,70000} x sign {+,-} x content {zeros, ramp, text, 'BZh9..' look-alike, incompressible, already-bzip2} x level {1,9}: all single records, all (thorough) / a third of reduced (quick) ordered pairs, cyclic coverings for 3 and 4 records, 900 KiB multi-block payloads; 5 header plans (incl. non-UTF-8); chunk wrappers; every byte string of length 0..=8 over {00,B,Z,h} as a bare record (compressed() <=> bytes 4..6 == 'BZ'). non-trivial = >= 2 records; distinct by content hash",
+        "files built by the reference container writer: 0..=4 records; record options = {raw bytes, bzip2 of payload} x size {0,1,2,5,6,100,2432,70000} x sign {+,-} x content {zeros, ramp, text, 'BZh9..' look-alike, incompressible, already-bzip2} x level {1,9}: all single records, all (thorough) / a third of reduced (quick) ordered pairs, cyclic coverings for 3 and 4 records, 900 KiB multi-block payloads; 5 header plans (incl. non-UTF-8); chunk wrappers; every byte string of length 0..=8 over {00,B,Z,h} as a bare record (compressed() <=> bytes 4..6 == 'BZ'); history: every sequence of <= 3 decompressions over {large ok a/b, small ok, large truncated, large corrupted, uncompressed} on a fresh thread; short-read reader shapes for the volume header. non-trivial = >= 2 records; distinct by content hash",
         true,
         json!({"record_options": full.len(), "cases": cases.len()}),
     );
@@ -408,6 +478,10 @@ pub fn replay(ctx: &'static Ctx, case: &Value) {
         if got != Caught::Ret(exp) {
             ctx.fail("record:compressed_flag_on_raw_bytes", || format!("{:?}", b), || case.clone());
         }
+        return;
+    }
+    if matches!(case["op"].as_str(), Some("history") | Some("short_read")) {
+        let _ = run(ctx);
         return;
     }
     if case["op"].as_str() == Some("chunk") {
